@@ -122,14 +122,14 @@ type simConn struct {
 	s2c    *dirState
 	client *endpoint
 	server *endpoint
-	// reqOp maps the request ids seen on c2s to the op that sent them
-	reqOp map[uint64]*op
+	// reqOps maps the request ids seen on c2s to the call(s) that used them
+	reqOps map[uint64][]*op
 	failLogged bool
 }
 
 func (w *world) newConn(slot int) *simConn {
 	w.nextConn++
-	c := &simConn{id: w.nextConn, slot: slot, reqOp: map[uint64]*op{}}
+	c := &simConn{id: w.nextConn, slot: slot, reqOps: map[uint64][]*op{}}
 	c.c2s = &dirState{c: c, name: "c2s", capBytes: w.cfg.Cap, badHdrEnd: -1}
 	c.s2c = &dirState{c: c, name: "s2c", capBytes: w.cfg.Cap, badHdrEnd: -1}
 	c.client = &endpoint{w: w, c: c, client: true, in: c.s2c, out: c.c2s}
